@@ -12,6 +12,7 @@ import Driver.Reasm
 import Driver.Handles
 import Driver.Settle
 import Driver.Conn
+import Driver.Life
 
 structure DState where
   sess : Amqp.Session.St := Amqp.Session.init 0 0 0
@@ -23,6 +24,7 @@ structure DState where
   settle : Amqp.Settle.St := Amqp.Settle.init []
   rsettle : Amqp.Settle.RSt := Amqp.Settle.rinit false
   conn : Driver.Conn.DSt := Driver.Conn.init
+  slife : Amqp.SessLife.St := Amqp.SessLife.mapped0
 
 def handle (st : DState) (line : String) : DState × String :=
   match Driver.words line with
@@ -63,6 +65,11 @@ def handle (st : DState) (line : String) : DState × String :=
     match Driver.Conn.step st.conn ws with
     | some (s, out) => ({ st with conn := s }, out)
     | none => (st, "bad-op")
+  | "E" :: ws =>
+    match Driver.Life.sessStep st.slife ws with
+    | some (s, out) => ({ st with slife := s }, out)
+    | none => (st, "bad-op")
+  | "L" :: ws => (st, (Driver.Life.linkCall ws).getD "bad-op")
   | "W" :: ws => (st, (Driver.Credit.wait ws).getD "bad-op")
   | _ => (st, "bad-op")
 
